@@ -431,6 +431,7 @@ def main(argv):
     run.samples = ['%s over %s' % (g[0], [dstr_x(x) for x in g[1]]) for g in groups[:3] + groups[-3:]]
     run.trust('CPython sub-processes honour PYTHONHASHSEED')
     run.assume('bounded in operand pool, arity <= 4, tree shapes of the C05 generator, 5 hash seeds')
+    run.assume('induction steps of key_expr (C13smt): identically named identifiers of one size agree on is_reg; constants sorted together have one width; finite trees')
     return run.finish()
 
 if __name__ == '__main__':
